@@ -114,7 +114,8 @@ KRaise(s0, e) ==
        ELSE Res(EndCall(s), TRUE, "")
 
 KStep(s, e) ==
-  IF e.ev = "blocked" THEN (IF s.tmo = -1 THEN Res(s, TRUE, "") ELSE Fail(s, "C17.no_progress"))   \* a read without timeout on a silent peer
+  IF e.ev = "hang" THEN Fail(s, "C08.call_never_returned")
+  ELSE IF e.ev = "blocked" THEN (IF s.tmo = -1 THEN Res(s, TRUE, "") ELSE Fail(s, "C17.no_progress"))   \* a read without timeout on a silent peer
   ELSE IF e.ev = "call" /\ e.api \in NewApis THEN KCall(s, e)
   ELSE IF e.ev = "tclose" THEN KTClose(s, e)
   ELSE IF e.ev \in {"tshutdown", "tsettimeout"} THEN
